@@ -119,8 +119,13 @@ def generate(template_path, repo, out_name):
             t = subst({k: v for k, v in t.items() if k != 'captures'})
             log.append({'rule': 'captures %s' % caps, 'fired': len(caps), 'must': '1+'})
         # optional slice: keep only the text between two anchors inside the body
-        if 'slice_from' in t or 'slice_to' in t:
+        if 'slice_from' in t or 'slice_to' in t or 'slice_from_after' in t:
             a, b = 1, len(text) - 1
+            if 'slice_from_after' in t:
+                ms = list(re.finditer(t['slice_from_after'], text))
+                if len(ms) != 1:
+                    raise X.ExtractionBroken('%s: slice_from_after matched %d times' % (what, len(ms)))
+                a = ms[0].end()
             if 'slice_from' in t:
                 ms = list(re.finditer(t['slice_from'], text))
                 if len(ms) != 1:
@@ -132,7 +137,7 @@ def generate(template_path, repo, out_name):
                     raise X.ExtractionBroken('%s: slice_to matched %d times' % (what, len(ms)))
                 b = ms[0].start()
             line += text.count('\n', 0, a)
-            dropped.append('text outside slice [%s .. %s)' % (t.get('slice_from', 'body start'), t.get('slice_to', 'body end')))
+            dropped.append('text outside slice [%s .. %s)' % (t.get('slice_from', t.get('slice_from_after', 'body start')), t.get('slice_to', 'body end')))
             text = '{' + text[a:b] + '}'
         if t.get('init_list'):
             # constructor initialiser list `: a(x), b(y)` lowered to assignments in declaration order
